@@ -173,6 +173,22 @@ harness! {
     }
 }
 
+// count()/sum()/mean(): exact sums over the centroids (small integers and dyadic means: f64 addition is exact)
+harness! {
+    #[kani::unwind(5)]
+    fn c16_td_count_sum_exact() {
+        let d = digest(2, false);
+        let (c0, c1) = (d.centroids[0].count, d.centroids[1].count);
+        let (s0, s1) = (d.centroids[0].sum, d.centroids[1].sum);
+        assert!(d.count() == c0 + c1, "C16 count() is the sum of the centroid weights");
+        assert!(d.sum() == s0 + s1, "C16 sum() is the sum of the centroid sums");
+        let t = TDigest { inner: RefCell::new(d) };
+        assert!(t.count() == c0 + c1 && t.sum() == s0 + s1, "C16 public count()/sum() report the inner aggregates");
+        assert!(t.mean() == (s0 + s1) / (c0 + c1), "C16 mean() is sum()/count()");
+        assert!(!t.is_empty(), "C16 a digest holding centroids is not empty");
+    }
+}
+
 // public wrapper: a positive finite weight always reaches the digest (complete, loop-free)
 harness! {
     fn c16_td_insert_weighted_wrapper() {
